@@ -34,6 +34,14 @@ impl Layout {
     {
         Layout { size, align }
     }
+    // core::alloc::Layout::new::<T>(): some valid layout -- alignment a power of two, size a multiple of it
+    // (what Rust guarantees of every type); which one depends on T and is left arbitrary
+    #[verifier::external_body]
+    pub fn new<T>() -> (r: Layout)
+        ensures spec_is_pow2(r.align), r.size as int % r.align as int == 0, r.size as int <= isize::MAX as int, r.align as int <= 0x2000_0000,
+    { unimplemented!() }
+    pub fn size(&self) -> (r: usize) ensures r == self.size { self.size }
+    pub fn align(&self) -> (r: usize) ensures r == self.align { self.align }
 }
 
 pub open spec fn spec_is_pow2(x: usize) -> bool {
